@@ -56,11 +56,14 @@ bb_op(int argc, char **argv)
         bb_view(rc, NULL, 0, false);
     } else if ((strcmp(op, "bb.consume") == 0 || strcmp(op, "bb.atmost") == 0) && argc == 2) {
         size_t n = parse_u64(argv[1]);
-        unsigned char *dst = malloc(n ? n : 1);   /* exact size: overrun is an ASan report */
-        memset(dst, 0xee, n ? n : 1);
+        /* exact size: overrun is an ASan report.  Lengths no allocation can have (up to SIZE_MAX) get a
+         * destination as large as the whole buffer: the library may never move more than that */
+        size_t cap = n <= ((size_t)1 << 24) ? (n ? n : 1) : (bb.size ? bb.size : 1);
+        unsigned char *dst = malloc(cap);
+        memset(dst, 0xee, cap);
         if (op[3] == 'c') {
             int rc = byte_buffer_consume(&bb, dst, n);
-            bb_view(rc, dst, rc == 0 ? n : 0, false);
+            bb_view(rc, dst, rc == 0 ? (n < cap ? n : cap) : 0, false);
         } else {
             ssize_t rc = byte_buffer_consume_at_most(&bb, dst, n);
             bb_view(rc, dst, rc > 0 ? (size_t)rc : 0, false);
